@@ -7,3 +7,59 @@ From Verif Require Import Base.Val C01.Model_C01 C04.Model_C04 C44.Model_C44 C45
 Theorem op_translate_is_glsa : op_translate_stmt.
 Proof. exact op_translate_is_glsa_proof. Qed.
 Print Assumptions op_translate_is_glsa.
+
+(* the repaired implementation flags exactly the affected packages: for every GLSA-format entry and
+   every installed package outside the known classes (glob = string prefix where that differs from a
+   component prefix; an rlt range without revision), provided the revision is the last tie-breaker
+   of the version order on the versions involved (revs_compat, checked on every generated case) *)
+Theorem affected_is_spec_partial : forall e p,
+  read_entry e <> None -> known_class e p = false -> revs_compat e p = true ->
+  flagged true e p = affected_spec e p.
+Proof. exact affected_is_spec_partial_proof. Qed.
+Print Assumptions affected_is_spec_partial.
+
+(* the pinned tree behaves like the repaired one on every entry without a slotted glob / rle / rge
+   range and without an unaffected glob *)
+Theorem orig_is_fixed_partial : forall e p, entry_not_pinned e -> flagged false e p = flagged true e p.
+Proof. exact orig_is_fixed_partial_proof. Qed.
+Print Assumptions orig_is_fixed_partial.
+
+(* a slot attribute limits a range of any kind to that slot (repaired implementation): in another
+   slot a vulnerable range does not hold and an unaffected range does not protect *)
+Theorem slot_limits_range : forall rg neg g p,
+  restrict_from_range true rg neg = Some g ->
+  is_nil (opt_slot (g_slot rg)) = false ->
+  str_eqb (opt_slot (g_slot rg)) (p_slot (i_pkg p)) = false ->
+  geval g p = neg.
+Proof. exact slot_limits_range_proof. Qed.
+Print Assumptions slot_limits_range.
+
+(* pinned tree: an unaffected glob is exactly inverted (vulnerable lt 2.0, unaffected eq 1.0-star) *)
+Theorem affected_orig_refuted_unaffected_glob :
+  ~ C45_full_statement false
+  /\ flagged false e_k1 b10 = true /\ affected_spec e_k1 b10 = false
+  /\ flagged false e_k1 b05 = false /\ affected_spec e_k1 b05 = true
+  /\ known_class e_k1 b10 = false /\ known_class_orig e_k1 b10 = true.
+Proof. exact affected_orig_refuted_unaffected_glob_proof. Qed.
+Print Assumptions affected_orig_refuted_unaffected_glob.
+
+(* pinned tree: the slot of an rge range without revision is dropped; the repaired one keeps it *)
+Theorem affected_orig_refuted_slot :
+  flagged false e_k2 b10 = true /\ affected_spec e_k2 b10 = false
+  /\ known_class e_k2 b10 = false /\ known_class_orig e_k2 b10 = true
+  /\ flagged true e_k2 b10 = false /\ flagged true e_k2 b10r1_s1 = true.
+Proof. exact affected_orig_refuted_slot_proof. Qed.
+Print Assumptions affected_orig_refuted_slot.
+
+(* repaired and pinned alike: a glob is a string prefix (eq 1-star flags 10) *)
+Theorem affected_refuted_glob_prefix :
+  ~ C45_full_statement true
+  /\ flagged true e_k3 b10_big = true /\ affected_spec e_k3 b10_big = false /\ known_class e_k3 b10_big = true.
+Proof. exact affected_refuted_glob_prefix_proof. Qed.
+Print Assumptions affected_refuted_glob_prefix.
+
+(* ... and an rlt range without revision discards the whole entry *)
+Theorem affected_refuted_rlt_r0 :
+  flagged true e_k4 b05 = false /\ affected_spec e_k4 b05 = true /\ known_class e_k4 b05 = true.
+Proof. exact affected_refuted_rlt_r0_proof. Qed.
+Print Assumptions affected_refuted_rlt_r0.
